@@ -151,7 +151,16 @@ int main(int argc, char **argv) {
     if (!strncmp(sc, "growth", 6)) {
       /* growth | growthfit:<chunk>:<lead> | growthcount:<chunk>:<lead>
          <lead> nops, then 2600 ten-byte instructions: crosses the 6000-byte growth step four times */
-      int chunk = 0, lead = 0, counting = 0, bigrun = 0;
+      int chunk = 0, lead = 0, counting = 0, bigrun = 0, far = 0;
+      /* growthfar:<steps>: the position is moved <steps> growth quanta ahead, so that ONE call has to grow the buffer several
+         times — a later growth step of the same call can be refused after earlier steps succeeded (and moved the mapping) */
+      if (sscanf(sc, "growthfar:%d", &far) == 1) {
+        asm_set_offset(al, off1 + far * 6000);
+        printf("offb=%d\n", asm_get_offset(al));
+        int rcf = LIB(asm_assemble_str(al, "nop\nret\n")); OUT();
+        printf("asm2=%d off2=%d\n", rcf, asm_get_offset(al));
+        goto after_growth;
+      }
       if (sscanf(sc, "growthfit:%d:%d", &chunk, &lead) == 2) counting = 0;
       else if (sscanf(sc, "growthcount:%d:%d", &chunk, &lead) == 2) counting = 1;
       /* growthbigfit:<chunk> / growthbigcount:<chunk>: the whole 2600-instruction program in ONE fitting / counting call, so that
@@ -174,6 +183,7 @@ int main(int argc, char **argv) {
       printf("asm2=%d off2=%d\n", rc2, asm_get_offset(al));
       if (chunk && !counting) asm_set_chunk_size(al, 0);
       free(big);
+      after_growth: ;
     } else if (!strcmp(sc, "file") || !strcmp(sc, "file_count")) {
       write_file(path, "mov rcx, 0x5\nadd rcx, rdx\nnop\nret\n");
       int rc2, cnt = -7;
